@@ -5,6 +5,7 @@ import (
 	"fmt"
 	"strings"
 	"testing"
+	"time"
 
 	"verif/sim/pktcodec"
 	"verif/sim/simrt"
@@ -446,6 +447,14 @@ func runC05(t *testing.T, c simrt.Chooser, o Opts) *Out {
 		w.maxSteps = 12_000_000
 		simrtFault(&Out{Stats: map[string]int{}}, "long-history")
 	}
+	nicFaults := !longHistory && p.pct("nicfaults", 15)
+	if nicFaults {
+		// a NIC that stalls and now and then refuses a frame: every frame handed to it, before and
+		// after a refusal, is still a well-formed probe with the requested fields
+		w.NicErrEvery = 2 + p.n("nicerrevery", 24)
+		w.NicStallEvery = 1 + p.n("nicstallevery", 4)
+		w.NicStallFor = p.dur("nicstallfor", time.Microsecond, time.Millisecond).String()
+	}
 	sc := &c05Scenario{pktScenario: &pktScenario{Spec: s, World: w}, Expect: fe}
 	out := &Out{Scenario: sc, Stats: map[string]int{}}
 	cr := runCmd(t, c, w, o.Trace)
@@ -464,7 +473,7 @@ func runC05(t *testing.T, c simrt.Chooser, o Opts) *Out {
 		out.violate("C05.exec-error", s.Kind, "valid options refused: %s (argv %v)", cr.ExecErr, w.Argv)
 		return out
 	}
-	if len(cr.Errs) > 0 {
+	if len(cr.Errs) > 0 && !nicFaults {
 		out.violate("C05.errors", s.Kind, "error records for valid options (argv %v): %v", w.Argv, cr.Errs[0])
 	}
 	for _, f := range cr.Wire {
